@@ -202,18 +202,27 @@ def exactFam : CongFam where
   relS := relS
   relL := relL
   relB := relB
+  relBo := relB
+  relRep := fun b c b' c' => relB b b' ∧ relE c c'
   relF := fun _ _ => True
   reflE := Guard.refl EqE.refl
   reflT := Guard.refl EqT.refl
   reflS := Guard.refl EqS.refl
   reflL := Guard.refl EqL.refl
   reflB := Guard.refl EqB.refl
+  reflBo := Guard.refl EqB.refl
   reflF := fun _ => trivial
   transE := Guard.trans (R := EqE) (fun _ _ _ h1 h2 => EqE.trans h1 h2)
   transT := Guard.trans (R := EqT) (fun _ _ _ h1 h2 => EqT.trans h1 h2)
   transS := Guard.trans (R := EqS) (fun _ _ _ h1 h2 => EqS.trans h1 h2)
   transL := Guard.trans (R := EqL) (fun _ _ _ h1 h2 => EqL.trans h1 h2)
   transB := Guard.trans (R := EqB) (fun _ _ _ h1 h2 => EqB.trans h1 h2)
+  transBo := Guard.trans (R := EqB) (fun _ _ _ h1 h2 => EqB.trans h1 h2)
+  transRep := fun h1 h2 =>
+    ⟨Guard.trans (R := EqB) (fun _ _ _ h1 h2 => EqB.trans h1 h2) h1.1 h2.1,
+     Guard.trans (R := EqE) (fun _ _ _ h1 h2 => EqE.trans h1 h2) h1.2 h2.2⟩
+  boToB := fun h => h
+  repOfOpen := fun hb hc => ⟨hb, hc⟩
   paren := fun h hp => by
     simp only [Expr.noFn] at hp ⊢; exact ⟨.paren (h hp).1, (h hp).2⟩
   un := fun h hp => by
@@ -273,9 +282,9 @@ def exactFam : CongFam where
   localAssign := fun hn hv hp => by
     simp only [Stmt.noFn] at hp ⊢; exact ⟨.localAssign hn (gEs hv hp).1, (gEs hv hp).2⟩
   localFn := fun _ hp => by simp [Stmt.noFn] at hp
-  repeat_ := fun hb hc hp => by
+  repeat_ := fun h hp => by
     simp only [Stmt.noFn, Bool.and_eq_true] at hp ⊢
-    exact ⟨.repeat_ (hb hp.1).1 (hc hp.2).1, (hb hp.1).2, (hc hp.2).2⟩
+    exact ⟨.repeat_ (h.1 hp.1).1 (h.2 hp.2).1, (h.1 hp.1).2, (h.2 hp.2).2⟩
   while_ := fun hc hb hp => by
     simp only [Stmt.noFn, Bool.and_eq_true] at hp ⊢
     exact ⟨.while_ (hc hp.1).1 (hb hp.2).1, (hc hp.1).2, (hb hp.2).2⟩
